@@ -26,8 +26,9 @@ fn gbk_oracle(cx: &mut Ctx, prog: &Prog, modes: &[Mode]) {
             for r in &rows {
                 if let V::P(k, vs) = r { if let V::L(vs) = &**vs { for v in vs { flat.push(V::pair((**k).clone(), v.clone())); } } }
             }
-            let mut a = flat; a.sort();
-            let mut b = input.clone(); b.sort();
+            // values may contain lists that came out of a hash set upstream: compare canonical forms
+            let a = canon_rows(&flat, "deep");
+            let b = canon_rows(&input, "deep");
             if a != b {
                 cx.oracle_fail(idx, "gbk-groups-do-not-flatten-to-input", format!("mode={} prog={}", m.enc(), prog.request(&m.enc())));
             }
